@@ -214,7 +214,7 @@ class Run(object):
             x = self.scaling[0] + x * self.scaling[1]
         return x
 
-    def ident(self, xs_abs, rvec, obj, ns, en, xbase=None):
+    def ident(self, xs_abs, rvec, obj, ns, en, xbase=None, reproj=None):
         """(xok, rok, ook) for a stored point: see module docstring."""
         p = self.points.get(int(en))
         xu = self.to_user(xs_abs)
@@ -231,6 +231,15 @@ class Run(object):
                 # with projections the code's read accessor RE-projects the stored point: when the routine's output is not a fixed point of the routine the
                 # two differ at the level of the Dykstra tolerance.  Recorded as its own class ("r") so that it is reported under its own clause.
                 xok = "r"
+            if not xok and self.P["sets"] and reproj is not None and self.scaling is None:
+                # ... and when the projection that produced the evaluated point had NOT converged (sweep cap), re-applying it moves the point by more than
+                # any tolerance: still the same class if the stored point is exactly what one more application of the accessor's projection gives
+                try:
+                    xr = np.asarray(reproj(np.array(p["x"], dtype=float)), dtype=float)
+                    if float(np.max(np.abs(xu - xr))) <= 1e-9 * scale:
+                        xok = "r"
+                except Exception:  # noqa
+                    pass
             k = int(ns)
             if k < 1 or k > len(p["rs"]):
                 rok = False
@@ -291,7 +300,8 @@ def install(run):
             npt = self.npt()
             xok, rok, ook = [], [], []
             for k in range(npt):
-                a, b, c = run.ident(self._slot_abs(k), self.fval_v[k, :], self.objval[k], self.nsamples[k], self.eval_num[k], self.xbase)
+                a, b, c = run.ident(self._slot_abs(k), self.fval_v[k, :], self.objval[k], self.nsamples[k], self.eval_num[k], self.xbase,
+                                    reproj=(lambda xe: saved["dyk"]["M"](self.projections, xe)) if self.projections else None)
                 xok.append(a); rok.append(b); ook.append(c)
             je = self.model_jac_eval_nums
             xok = [xcls(v) for v in xok]
